@@ -49,7 +49,7 @@ def enc_script(s):
 
 def enc_op(o):
     k = o[0]
-    if k in ("w", "wp"):
+    if k in ("w", "wp", "ws"):
         return "w.%d.%d" % (o[1], o[2])
     if k == "r":
         return "r.%d" % o[1]
@@ -106,14 +106,8 @@ def render_script(case, v, s):
     return "\n".join(L) + "\n"
 
 
-def cur_stamp_matches(dbstamp, path):
-    try:
-        st = os.lstat(path)
-    except FileNotFoundError:
-        return False
-    if stat.S_ISDIR(st.st_mode):
-        return dbstamp == "dir"
-    parts = dbstamp.split("-")
+def _one_stamp_matches(part, st):
+    parts = part.split("-")
     if len(parts) != 6:
         return False
     try:
@@ -121,6 +115,27 @@ def cur_stamp_matches(dbstamp, path):
     except ValueError:
         return False
     return abs(mt - st.st_mtime_ns / 1e9) < 2.5e-6 and parts[1:] == [str(st.st_size), str(st.st_ino), str(st.st_mode), str(st.st_uid), str(st.st_gid)]
+
+
+def cur_stamp_matches(dbstamp, path):
+    """Does the recorded stamp describe the file as it is now?  (state.rs read_stamp: lstat; for a symbolic link the
+    stamp is `<link stamp>+<stamp of what it points to>`.)"""
+    try:
+        st = os.lstat(path)
+    except FileNotFoundError:
+        return False
+    if stat.S_ISDIR(st.st_mode):
+        return dbstamp == "dir"
+    if stat.S_ISLNK(st.st_mode):
+        if "+" not in dbstamp:
+            return False
+        a, b = dbstamp.split("+", 1)
+        try:
+            tgt = os.stat(path)
+        except FileNotFoundError:
+            return False
+        return _one_stamp_matches(a, st) and (b == "dir" if stat.S_ISDIR(tgt.st_mode) else _one_stamp_matches(b, tgt))
+    return _one_stamp_matches(dbstamp, st)
 
 
 def file_tokens(case, pr, f, dover):
@@ -198,6 +213,12 @@ def run_real(case, keep=False, extra_env=None):
                     pr.write(case.names[f], render_script(case, v, progs[v]))
                 else:
                     pr.write(case.names[f], str(2 * v + 3))
+            elif k == "ws":
+                # the user's file is a symbolic link to a regular file kept elsewhere (fresh link, fresh pointee)
+                real_name = ".real-%s-%d" % (case.names[o[1]], len(lines))
+                pr.write(real_name, str(2 * o[2] + 3))
+                pr.rm(case.names[o[1]])
+                os.symlink(real_name, pr.path(case.names[o[1]]))
             elif k == "wp":
                 # replace by hand keeping the old mtime (cp -p / rsync -t): only the size (and inode) differ
                 pth = pr.path(case.names[o[1]])
@@ -395,10 +416,20 @@ def gen_case(rng, size=None, features=None):
             ops.append(("r", rng.choice(srcs[1:] if use_default and len(srcs) > 1 else srcs if not use_default else tgts)))
         elif r < 0.73:
             # hand-edit / create a file at a target's name (sometimes keeping the old mtime, with another size)
-            if rng.random() < 0.35:
+            q = rng.random()
+            if q < 0.35:
                 ops.append(("wp", rng.choice(tgts), 1000 + rng.randint(0, 5)))
+            elif q < 0.35 + feats.get("symlink", 0.0):
+                ops.append(("ws", rng.choice(tgts), 100 + rng.randint(0, 5)))
             else:
                 ops.append(("w", rng.choice(tgts), 100 + rng.randint(0, 5)))
+        elif r < 0.73 + feats.get("handedit2", 0.0):
+            # the user edits a generated (or would-be generated) file, a command sees it, the user edits it again
+            t = rng.choice(tgts)
+            ops.append((rng.choice(["w", "w", "ws"]) if feats.get("symlink") else "w", t, 100 + rng.randint(0, 5)))
+            ops.append(("ifc", [t] + ([rng.choice(tgts)] if rng.random() < 0.4 else []), False) if rng.random() < 0.7 else ("redo", [t], False))
+            ops.append((rng.choice(["w", "wp"]), t, 110 + rng.randint(0, 5)))
+            ops.append(("redo", [t], False) if rng.random() < 0.5 else ("ifc", [t], False))
         elif r < 0.80:
             t = rng.choice(tgts)
             i = tgts.index(t)
